@@ -332,7 +332,12 @@ func c04Run(e *vh.Env, c c04Case, seq string, bes []*vh.Backend, o *vh.Out) {
 	if strings.HasPrefix(c.Strategy, "ip_hash") {
 		for i := 0; i < 400 && len(w.sAddrs) < 3; i++ {
 			cl := fmt.Sprintf("10.55.%d.%d", i/250, i%250)
+			t0 := time.Now()
 			rec := sys.call("GET", "/map", cl+":1", nil, nil)
+			if rec.Code != 200 || (vh.IsSim && vh.Took(time.Since(t0))) {
+				// nothing is scripted to fail or to take time here: the virtual clock moved under a healthy exchange
+				vh.FlagAnomaly(fmt.Sprintf("c04 mapping request: status %d after %v", rec.Code, time.Since(t0)))
+			}
 			if servedBy(rec) == w.S.Name {
 				w.sAddrs = append(w.sAddrs, cl)
 			}
